@@ -1,11 +1,12 @@
 """E-CHANOPS-mpscu: D1 engine for fibre::mpsc::unbounded / unbounded_async (K2 op-level model
 coq/Chan/MpscU.v).  Generator, shrinker split and the property MONITOR for C01/C02/C04/C06/C09
 (judges the implementation's outputs alone)."""
+import os
 from .flow import Engine
 from .engines_mpscb import Mon, parse_ids
 
 # model switch: bit1 = F-M1 repaired (clone of a closed sender is closed).  0 = the code as it is.
-FIXFLAGS = 0
+FIXFLAGS = int(os.environ.get("VERIF_MPSC_FIXFLAGS", "0")) & 2
 
 ARITY = {"ts": 3, "sd": 3, "tr": 2, "rc": 2, "rt": 2, "cl": 2, "dr": 2, "cn": 3, "tos": 2, "toa": 2,
          "ln": 2, "ie": 2, "ic": 2, "sc": 2, "ms": 4, "mr": 3, "pl": 3, "df": 2, "pn": 3,
@@ -375,6 +376,6 @@ PROPS = {
     "C02": _p("mpsc unbounded (K2): accepted = received ++ buffered ++ destroyed in send order for all histories; receive outputs are the received list; D1 runs cross >=3 slab boundaries per producer with slab recycling"),
     "C04": _p("mpsc unbounded (K2): Disconnected only when drained and no open sender; final except via clone-of-closed-sender (F-M1; full theorem for the repaired Clone); Closed+value after the receiver is gone; clone isolation; a closed handle rejects every form; close idempotent",
               {"F-M1-mpscu": (ENGINE, W_FM1, "C04:F-M1-clone-after-close")}),
-    "C06": _p("mpsc unbounded receive futures/stream (K2): see docs/mpscu.md"),
+    "C06": _p("mpsc unbounded futures/stream (K2, all create/poll/drop histories): sends never pend; a pending receive future/stream is woken as soon as its poll would be Ready (value buffered or last sender gone); no dangling registration; cancellation preserves conservation and order"),
     "C09": _p("mpsc unbounded (K2): every id in exactly one location in every history; receiver close destroys exactly the buffered values; after all handles/futures are gone every id returned or dropped exactly once; D1 compares per-id drop counters across recycled slabs"),
 }
